@@ -454,6 +454,31 @@ def expander(fnode, only=None):
     env = single_assignments(fnode)
     if only is not None:
         env = {k: v for k, v in env.items() if only(v)}
+    # a local assigned once in each branch of one if/else:  x = (c and A) or (not c and B)
+    counts = {}
+    for n in walk_no_defs(fnode):
+        if isinstance(n, ast.Assign):
+            for t in n.targets:
+                if isinstance(t, ast.Name):
+                    counts[t.id] = counts.get(t.id, 0) + 1
+    for n in walk_no_defs(fnode):
+        if isinstance(n, ast.If) and n.orelse:
+            def last_assign(block):
+                out = {}
+                for st in block:
+                    if isinstance(st, ast.Assign) and len(st.targets) == 1 and \
+                            isinstance(st.targets[0], ast.Name):
+                        out[st.targets[0].id] = st.value
+                return out
+            a, b = last_assign(n.body), last_assign(n.orelse)
+            for nm in set(a) & set(b):
+                if counts.get(nm) == 2 and nm not in env and (only is None or
+                                                              (only(a[nm]) and only(b[nm]))):
+                    phi = ast.BoolOp(op=ast.Or(), values=[
+                        ast.BoolOp(op=ast.And(), values=[n.test, a[nm]]),
+                        ast.BoolOp(op=ast.And(), values=[ast.UnaryOp(op=ast.Not(), operand=n.test),
+                                                         b[nm]])])
+                    env[nm] = ast.fix_missing_locations(ast.copy_location(phi, n))
 
     def expand(e):
         import copy
@@ -498,3 +523,73 @@ def guard_literals(ctx, fi, astnode, g=None, expand_bools=True):
         return path_literals(astnode, fi.node)
     exp = expander(fi.node, is_boolish) if expand_bools else None
     return g.dominating_literals(nid, expand=exp)
+
+
+def inlined(ctx, fi, depth=2):
+    """a copy of the function's AST in which statement-level calls of helper functions /
+    methods of the same module (``self.h(...)``, ``h(...)``, ``Cls.h(...)``) are replaced by
+    the helper's body with the parameters substituted by the argument expressions.  Only
+    helpers whose body contains no ``return <value>`` are inlined."""
+    import copy
+    m = ctx.model
+
+    def resolve(call):
+        f = call.func
+        name = None
+        if isinstance(f, ast.Name):
+            name = f.id
+        elif isinstance(f, ast.Attribute) and isinstance(f.value, ast.Name):
+            name = f.attr
+        if name is None:
+            return None
+        cands = [x for q, x in fi.module.functions.items() if q.split('.')[-1] == name and x is not fi]
+        if len(cands) != 1:
+            return None
+        h = cands[0]
+        if any(isinstance(n, ast.Return) and n.value is not None for n in ast.walk(h.node)) or \
+                any(isinstance(n, (ast.Yield, ast.YieldFrom)) for n in ast.walk(h.node)):
+            return None
+        return h
+
+    def expand_body(body, d):
+        out = []
+        for st in body:
+            if d > 0 and isinstance(st, ast.Expr) and isinstance(st.value, ast.Call):
+                h = resolve(st.value)
+                if h is not None:
+                    ps = [a.arg for a in h.node.args.args]
+                    decos = [dotted(x) for x in h.node.decorator_list]
+                    if ps and ps[0] in ('self', 'cls') and 'staticmethod' not in decos:
+                        ps = ps[1:]
+                    env = {}
+                    for p, a in zip(ps, st.value.args):
+                        env[p] = a
+                    for k in st.value.keywords:
+                        if k.arg:
+                            env[k.arg] = k.value
+                    hb = [copy.deepcopy(x) for x in h.node.body
+                          if not (isinstance(x, ast.Expr) and isinstance(x.value, ast.Constant))]
+                    hb = [_Subst(env, 1).visit(x) for x in hb]
+                    for x in hb:
+                        ast.copy_location(x, st)
+                        for y in ast.walk(x):
+                            if not hasattr(y, 'lineno') or True:
+                                y.lineno = getattr(st, 'lineno', 0)
+                                y.col_offset = getattr(y, 'col_offset', 0)
+                    out.extend(expand_body(hb, d - 1))
+                    continue
+            for fld in ('body', 'orelse', 'finalbody'):
+                sub = getattr(st, fld, None)
+                if isinstance(sub, list) and sub and isinstance(sub[0], ast.stmt):
+                    setattr(st, fld, expand_body(sub, d))
+            for hd in getattr(st, 'handlers', []) or []:
+                hd.body = expand_body(hd.body, d)
+            out.append(st)
+        return out
+    new = copy.deepcopy(fi.node)
+    new.body = expand_body(new.body, depth)
+    ast.fix_missing_locations(new)
+    for p in ast.walk(new):
+        for c in ast.iter_child_nodes(p):
+            c._parent = p
+    return new
